@@ -23,11 +23,14 @@ from . import build as B
 from . import observe as O
 
 DECOYS = ('k', '5', ' ', '\n')
+_SHORTHAND_EXTRA = re.compile(r'[\d\s]')
 
 
 def uni_for(term, ci=False, deep=False):
     cps = B.chars_of(term)
-    chars = {chr(c) for c in cps}
+    # code points that only the Unicode-aware shorthands \d and \s add beyond their ASCII cores are left unspecified by the
+    # properties: they never occur in subject texts (the reference spells [0-9] where the library may emit \d)
+    chars = {chr(c) for c in cps if c < 128 or _SHORTHAND_EXTRA.fullmatch(chr(c)) is None}
     if ci:
         chars |= {c.swapcase() for c in chars if c.isalpha() and len(c.swapcase()) == 1}
     core = chars if chars else {'k'}
